@@ -73,7 +73,7 @@ def material(rng):
 
 def generate(ctx):
     rng = ctx.rng
-    n = ctx.scaled({"quick": 6000, "thorough": 300000}[ctx.tier])
+    n = ctx.scaled({"quick": 6000, "thorough": 60000}[ctx.tier])
     for i in range(n):
         m = material(rng)
         r = rng.random()
